@@ -83,16 +83,28 @@ pub fn subtype(req: Value) -> Value {
             .collect();
         let shown: Vec<Value> = types.iter().map(|t| t.as_ref().map(|t| json!(format!("{t}"))).unwrap_or(Value::Null)).collect();
         let mut matrix = vec![];
-        for a in types.iter() {
+        let mut panics: Vec<Value> = vec![];
+        for (i, a) in types.iter().enumerate() {
             let mut row = vec![];
-            for b in types.iter() {
+            for (j, b) in types.iter().enumerate() {
                 match (a, b) {
-                    (Some(a), Some(b)) => row.push(json!(ctx.subtype_of(a, b))),
+                    (Some(a), Some(b)) => {
+                        // a panic inside the comparison is reported per pair (entry "panic"), not for the whole matrix
+                        match std::panic::catch_unwind(std::panic::AssertUnwindSafe(|| ctx.subtype_of(a, b))) {
+                            Ok(v) => row.push(json!(v)),
+                            Err(_) => {
+                                row.push(json!("panic"));
+                                if panics.len() < 50 {
+                                    panics.push(json!([i, j, crate::LAST_PANIC.lock().ok().and_then(|mut g| g.take()).unwrap_or_default()]));
+                                }
+                            }
+                        }
+                    }
                     _ => row.push(Value::Null),
                 }
             }
             matrix.push(Value::Array(row));
         }
-        json!({"types": shown, "matrix": matrix, "errors": errors})
+        json!({"types": shown, "matrix": matrix, "errors": errors, "panics": panics})
     })
 }
